@@ -142,7 +142,8 @@ class RomFSReader(TypeReaderBase, FS):
         self.case_insensitive = case_insensitive
         self.open_compatibility_mode = open_compatibility_mode
 
-        lv3_offset = self._file.tell()
+        # offset of the level 3 header, relative to the start of the RomFS
+        lv3_offset = 0
         # this reads the full amount that an ivfc header might be,
         # but this could also be a lv3 header which is only 0x28 bytes
         # this is just to reduce the amount of read calls
